@@ -135,11 +135,9 @@ theorem highlight_insertSemis (hsemi : legendOf "Semicolon" = none) (items : Lis
     split
     · rw [highlight_cons, highlight_cons (it := it), ih]
     · split
+      · rw [highlight_cons, highlight_cons, highlight_cons (it := it), ih]
+        simp [hl1, hsemi]
       · rw [highlight_cons, highlight_cons (it := it), ih]
-      · split
-        · rw [highlight_cons, highlight_cons, highlight_cons (it := it), ih]
-          simp [hl1, hsemi]
-        · rw [highlight_cons, highlight_cons (it := it), ih]
 
 /-! ### legend soundness as a Boolean over the generated tables -/
 
